@@ -1,1 +1,3 @@
+import Props.C01
 import Props.C03
+import Props.C05
